@@ -396,9 +396,9 @@ def replay(path, tier="quick", seed=0):
     h = []
     for e in rp["history"]:
         e = dict(e)
-        if e["e"] == "transform":
+        if e["e"] == "transform" and e.get("name"):
             e["k"] = names.index(e["name"]) + 1
-        if e["e"] == "create":
+        if e["e"] == "create" and e.get("family"):
             e["c"] = fams.index(e["family"]) + 1
         h.append(e)
     stats = {"executions": 0, "slow": {}}
